@@ -297,6 +297,29 @@ def r3_compressed(ctx):
             interp.mstate[m.tag] = tuple(pairs)
             return m
 
+        def hm_extend(interp, env, f, args):
+            # `map.extend(iter of (key, value))`: consumes the iterator (its closures run now), inserting pair by pair
+            m = load(interp, env, args[0]) if args else None
+            if not (isinstance(m, Sym) and m.tag.startswith("map:")) or len(args) != 2:
+                return TOP
+            from collmodel import iter_items
+            its = iter_items(interp, env, args[1])
+            if its is None:
+                return TOP
+            pairs = list(interp.mstate.get(m.tag, ()))
+            for x in its:
+                x = load(interp, env, x)
+                if not (isinstance(x, Agg) and x.kind == "tuple" and len(x.fields) == 2):
+                    return TOP
+                k_ = load(interp, env, x.fields[0])
+                k_ = getattr(k_, "tag", k_)
+                if any(a == k_ for a, b in pairs):
+                    pairs = [(a, (x.fields[1] if a == k_ else b)) for (a, b) in pairs]
+                else:
+                    pairs.append((k_, x.fields[1]))
+            interp.mstate[m.tag] = tuple(pairs)
+            return Agg("tuple", None, None, [])
+
         def or_insert_value(interp, env, f, args):
             e = slot_of(interp, env, args[0])
             if e is None:
@@ -352,7 +375,7 @@ def r3_compressed(ctx):
                  "std::collections::hash::map::HashMap::new": hm_new, "std::collections::hash::map::HashMap::with_capacity": hm_new,
                  "<std::collections::hash::map::HashMap as core::default::Default>::default": hm_new,
                  "std::collections::hash::map::HashMap::entry": hm_entry, "std::collections::hash::map::Entry::or_insert_with": or_insert_with,
-                 "std::collections::hash::map::HashMap::insert": hm_insert}
+                 "std::collections::hash::map::HashMap::insert": hm_insert, "core::iter::traits::collect::Extend::extend": hm_extend}
         it = install(Interp(fn.body, chain(mk_oracle(table), coll_oracle, std_oracle), [log], facts=F, inline=INL, max_visits=20, max_paths=50))
         it.init_state = {"heap": heap, "next_vec": 0}
         n += 1
